@@ -184,7 +184,13 @@ Fixpoint add_segs (fuel : nat) (root : bool) (t : tree) (anc : list str) (anc_al
   | _, [] => None
   | Node sb ls, [s] =>
       if optional s && root then
-        (* only segment of the route is optional: short form "/" lives in the same node *)
+        (* only segment of the route is optional: short form "/" lives in the same node.  The code checks
+           the long form against the leaves present BEFORE the short one is added, so "/?" alone is
+           accepted: its two forms are the same leaf "/" (the code keeps two identical leaves, of which
+           only the first is ever reached; the model keeps one) *)
+        if str_eqb (seg_key s) (seg_key (mkseg false [])) then
+          match add_leaf anc ls (mkseg false []) rid with Some ls1 => Some (Node sb ls1) | None => None end
+        else
         match add_leaf anc ls (mkseg false []) rid with
         | Some ls1 => match add_leaf anc ls1 s rid with Some ls2 => Some (Node sb ls2) | None => None end
         | None => None
